@@ -589,6 +589,9 @@ func (vc *FnVC) convert(st *State, in *ssa.Convert) *Val {
 		return &Val{T: to, S: x.S}
 	case isInteger(from) && isString(to):
 		vc.declareFun("gs.ofrune", []string{"Int"}, "Str")
+		// string(r) of an ASCII code point is the one-byte string of that byte (other runes: uninterpreted)
+		vc.usedCat = true
+		vc.assume(st, smtImp(smtAnd(sx("<=", "0", x.S), sx("<", x.S, "128")), sx("=", sx("gs.ofrune", x.S), sx("gs.unit", x.S))))
 		return &Val{T: to, S: sx("gs.ofrune", x.S)}
 	case isInteger(from) && isFloat(to):
 		return &Val{T: to, S: sx("to_real", x.S)}
